@@ -83,7 +83,7 @@ class ClassInstanceMethod(classmethod):  # type: ignore[type-arg]
 
     @no_type_check  # This definition is to be removed soon
     def __get__(self, instance, owner=None):
-        if instance:
+        if instance is not None:
             return self.f_instance.__get__(instance, owner)
         else:
             return super().__get__(instance, owner)
